@@ -156,16 +156,27 @@ fn main() {
             if mn.parse::<f64>().ok() != Some(a) || mx.parse::<f64>().ok() != Some(b) { return Err(format!("declared min={} max={}, schema `{}`", a, b, schema)); }
             Ok(schema)
         });
+        let vm = ValidatorAttributes { length: None, range: Some(RangeConstraint { min: Some(a), max: Some(b), message: Some("in range please".to_string()) }), email: false, url: false, custom_message: None };
+        rep.case("declared_message_is_kept", &format!("range min={} max={} message", a, b), &|| {
+            let schema = ZodSchemaBuilder::new(&cfg).build_schema(&number_ty, &Some(vm.clone()));
+            if schema.contains("in range please") { Ok(schema) } else { Err(format!("the declared message is missing from `{}`", schema)) }
+        });
     } }
     let ivals: [u64; 6] = [0, 1, 3, 10, 255, u64::MAX];
     for a in ivals { for b in ivals {
         let va = ValidatorAttributes { length: Some(LengthConstraint { min: Some(a), max: Some(b), message: None }), range: None, email: false, url: false, custom_message: None };
         rep.case("length_bounds_rendered_exactly", &format!("length min={} max={}", a, b), &|| {
             let schema = ZodSchemaBuilder::new(&cfg).build_schema(&string_ty, &Some(va.clone()));
-            let mn = bound_of(&schema, ".min(").ok_or(format!("no .min( in `{}`", schema))?;
-            let mx = bound_of(&schema, ".max(").ok_or(format!("no .max( in `{}`", schema))?;
+            // `.length(n)` is the same constraint as `.min(n).max(n)`
+            let exact = bound_of(&schema, ".length(");
+            let (mn, mx) = match (&exact, bound_of(&schema, ".min("), bound_of(&schema, ".max(")) { (Some(e), None, None) => (e.clone(), e.clone()), (_, Some(x), Some(y)) => (x, y), _ => return Err(format!("declared min={} max={}, schema `{}` has no such bounds", a, b, schema)) };
             if mn.parse::<u64>().ok() != Some(a) || mx.parse::<u64>().ok() != Some(b) { return Err(format!("declared min={} max={}, schema `{}`", a, b, schema)); }
             Ok(schema)
+        });
+        let vm = ValidatorAttributes { length: Some(LengthConstraint { min: Some(a), max: Some(b), message: Some("exactly so".to_string()) }), range: None, email: false, url: false, custom_message: None };
+        rep.case("declared_message_is_kept", &format!("length min={} max={} message", a, b), &|| {
+            let schema = ZodSchemaBuilder::new(&cfg).build_schema(&string_ty, &Some(vm.clone()));
+            if schema.contains("exactly so") { Ok(schema) } else { Err(format!("the declared message is missing from `{}`", schema)) }
         });
     } }
     for a in [f64::NAN, f64::INFINITY, f64::NEG_INFINITY, 0.0] { for b in [f64::NAN, f64::INFINITY, f64::NEG_INFINITY, 1.0] {
